@@ -493,7 +493,7 @@ fn run_unit(ctx: &Ctx, found: &FoundMap, u: &Unit) {
     ctx.count(&format!("cases_{:?}", u.api), evals);
     ctx.count("nontrivial_cases_all_families", nontrivial);
     ctx.count("diverging_cases_total", diverging);
-    ctx.count("final_tnr_jump_vs_continue_differs_from_spec(informational)", tnr_mis);
+    ctx.count(&format!("final_tnr_jump_vs_continue_differs_from_spec(informational)[{}]", u.family), tnr_mis);
 }
 
 struct Bounds {
@@ -512,9 +512,9 @@ struct Bounds {
 
 fn explore(ctx: &Ctx) {
     let b = if ctx.quick() {
-        Bounds { n_single: 5, n_visit: 5, n_rewrite2: 4, salts_single: 14, salts_double: 2, n_subq: 5, n_subq2: 4, salts_subq: 4 }
+        Bounds { n_single: 6, n_visit: 6, n_rewrite2: 4, salts_single: 14, salts_double: 6, n_subq: 5, n_subq2: 4, salts_subq: 6 }
     } else {
-        Bounds { n_single: 6, n_visit: 6, n_rewrite2: 5, salts_single: 14, salts_double: 4, n_subq: 6, n_subq2: 5, salts_subq: 8 }
+        Bounds { n_single: 7, n_visit: 7, n_rewrite2: 5, salts_single: 14, salts_double: 4, n_subq: 6, n_subq2: 5, salts_subq: 6 }
     };
     // tuning aid only (recorded in the evidence through the bounds below)
     let b = match std::env::var("C42_BOUNDS").ok().map(|v| v.split(',').filter_map(|x| x.parse::<usize>().ok()).collect::<Vec<_>>()) {
